@@ -1418,8 +1418,15 @@ func (d *DotGit) rewritePackedRefsWithoutRef(name plumbing.ReferenceName) (err e
 
 	s := bufio.NewScanner(pr)
 	found := false
+	dropPeeled := false
 	for s.Scan() {
 		line := s.Text()
+		if dropPeeled && strings.HasPrefix(line, "^") {
+			// the peeled value of the reference just dropped goes with it
+			continue
+		}
+		dropPeeled = false
+
 		ref, err := d.processLine(line)
 		if err != nil {
 			return err
@@ -1427,6 +1434,7 @@ func (d *DotGit) rewritePackedRefsWithoutRef(name plumbing.ReferenceName) (err e
 
 		if ref != nil && ref.Name() == name {
 			found = true
+			dropPeeled = true
 			continue
 		}
 
